@@ -12,7 +12,11 @@ import (
 	gatewayv1alpha3 "sigs.k8s.io/gateway-api/apis/v1alpha3"
 	gatewayv1beta1 "sigs.k8s.io/gateway-api/apis/v1beta1"
 
+	ngfAPI "github.com/nginx/nginx-gateway-fabric/apis/v1alpha1"
+	"github.com/nginx/nginx-gateway-fabric/internal/framework/kinds"
+	"github.com/nginx/nginx-gateway-fabric/internal/mode/static/nginx/config/policies"
 	"github.com/nginx/nginx-gateway-fabric/internal/mode/static/state/graph"
+	p "github.com/nginx/nginx-gateway-fabric/verifharness/pipeline"
 )
 
 // Footprint correspondence: the input of the Lean footprint model (NGF.Model.Footprint) is cut out of the REAL
@@ -141,7 +145,9 @@ func footprintLine(c *Ctrl, w *World) (model, real string, ok bool) {
 					if len(sel.MatchExpressions) > 0 {
 						return "", "", false // the model covers matchLabels only
 					}
-					sels = append(sels, labelTokens(sel.MatchLabels))
+					// validity is passed along: `isNamespaceReferenced` does NOT look at it (an invalid listener may
+					// still be attachable), the weakened variant of the model does
+					sels = append(sels, b01(l.Valid)+";"+labelTokens(sel.MatchLabels))
 				}
 			}
 			ref, allowed := "-", true
@@ -177,9 +183,75 @@ func footprintLine(c *Ctrl, w *World) (model, real string, ok bool) {
 		}
 	}
 	sort.Strings(resolved)
-	model = fmt.Sprintf("winner=%s routes=%s sels=%s nss=%s hasgw=%s btps=%s ls=%s", winner, fpList(routes, "|"), fpList(sels, "|"),
-		fpList(nss, "|"), b01(g.Gateway != nil), fpList(btps, "|"), fpList(ls, "|"))
-	real = fmt.Sprintf("svcs=%s nss=%s cms=%s secs=%s resolved=%s", fpKeys(g.ReferencedServices), fpKeys(g.ReferencedNamespaces),
-		fpKeys(g.ReferencedCaCertConfigMaps), fpKeys(g.ReferencedSecrets), fpList(resolved, ","))
+
+	// NginxProxy: the parametersRef of the graph's GatewayClass; real = Graph.IsReferenced for every NginxProxy of the cluster
+	gcref := "-" // no GatewayClass in the graph
+	if g.GatewayClass != nil && g.GatewayClass.Source != nil {
+		gcref = "none"
+		if r := g.GatewayClass.Source.Spec.ParametersRef; r != nil {
+			gcref = fpStr(string(r.Group)) + ";" + fpStr(string(r.Kind)) + ";" + fpStr(r.Name)
+		}
+	}
+	var nps, npRef []string
+	// NGF policies: the core the targetRefs are resolved against; real = Graph.IsNGFPolicyRelevant / g.NGFPolicies
+	var gws, rks, pols, polRel, polGraph, secMissing []string
+	if g.Gateway != nil && g.Gateway.Source != nil {
+		gws = append(gws, client.ObjectKeyFromObject(g.Gateway.Source).String())
+		for k := range g.IgnoredGateways {
+			gws = append(gws, k.String())
+		}
+	}
+	sort.Strings(gws)
+	for k := range g.Routes {
+		kind := map[graph.RouteType]string{graph.RouteTypeHTTP: "HTTPRoute", graph.RouteTypeGRPC: "GRPCRoute"}[k.RouteType]
+		rks = append(rks, kind+";"+k.NamespacedName.String())
+	}
+	sort.Strings(rks)
+	mustGVK := kinds.NewMustExtractGKV(p.Scheme)
+	for _, o := range w.Objects() {
+		if np, ok := o.(*ngfAPI.NginxProxy); ok {
+			nps = append(nps, fpStr(np.Name))
+			if g.IsReferenced(np, client.ObjectKeyFromObject(np)) {
+				npRef = append(npRef, fpStr(np.Name))
+			}
+		}
+		pol, ok := o.(policies.Policy)
+		if !ok {
+			continue
+		}
+		key := p.KindOf(o) + "/" + client.ObjectKeyFromObject(o).String()
+		var refs []string
+		for _, r := range pol.GetTargetRefs() {
+			refs = append(refs, fpStr(string(r.Group))+"^"+fpStr(string(r.Kind))+"^"+fpStr(string(r.Name)))
+		}
+		pols = append(pols, key+";"+fpStr(pol.GetNamespace())+";"+fpList(refs, "+"))
+		gvk := mustGVK(o)
+		if g.IsNGFPolicyRelevant(pol, gvk, client.ObjectKeyFromObject(o)) {
+			polRel = append(polRel, key)
+		}
+		if _, in := g.NGFPolicies[graph.PolicyKey{NsName: client.ObjectKeyFromObject(o), GVK: gvk}]; in {
+			polGraph = append(polGraph, key)
+		}
+	}
+	// Secrets / ConfigMaps that are referenced although they do not exist (the resolvers record them all the same)
+	for k, sec := range g.ReferencedSecrets {
+		if sec == nil || sec.Source == nil {
+			secMissing = append(secMissing, k.String())
+		}
+	}
+	var cmMissing []string
+	for k, cm := range g.ReferencedCaCertConfigMaps {
+		if cm == nil || cm.Source == nil {
+			cmMissing = append(cmMissing, k.String())
+		}
+	}
+	sort.Strings(secMissing)
+	sort.Strings(cmMissing)
+	model = fmt.Sprintf("winner=%s routes=%s sels=%s nss=%s hasgw=%s btps=%s ls=%s gcref=%s nps=%s gws=%s rkeys=%s refsvcs=%s pols=%s", winner,
+		fpList(routes, "|"), fpList(sels, "|"), fpList(nss, "|"), b01(g.Gateway != nil), fpList(btps, "|"), fpList(ls, "|"),
+		gcref, fpList(nps, ","), fpList(gws, "+"), fpList(rks, "|"), strings.ReplaceAll(fpKeys(g.ReferencedServices), ",", "+"), fpList(pols, "|"))
+	real = fmt.Sprintf("svcs=%s nss=%s cms=%s secs=%s resolved=%s nprefs=%s polrel=%s polgraph=%s secmissing=%s cmmissing=%s", fpKeys(g.ReferencedServices),
+		fpKeys(g.ReferencedNamespaces), fpKeys(g.ReferencedCaCertConfigMaps), fpKeys(g.ReferencedSecrets), fpList(resolved, ","),
+		fpList(npRef, ","), fpList(polRel, ","), fpList(polGraph, ","), fpList(secMissing, ","), fpList(cmMissing, ","))
 	return model, real, true
 }
